@@ -76,8 +76,7 @@ def numberOfComponents (A : AMat Int n) : Except Err Nat :=
 def step (line : String) : String :=
   let (op, kv) := parseLine line
   let res : Option String := do
-    let n ← (← lookup kv "n").toNat?
-    if n == 0 then none
+    let n ← (← lookup kv "n").toNat?    -- n = 0 is a legal input: bct returns two empty arrays / 0
     let A ← parseMat n (← lookup kv "A")
     if op == "get_components" then
       match getComponents A with
